@@ -330,6 +330,30 @@ def run(F, chk):
                               (fn["name"], src, n["short"]))
     chk.floor(R10, 6)
 
+    # ---------------------------------------------------------------- R6.11 block numbers are taken by value
+    R11 = chk.rule("R6.11", "the NiHeader functions that delete, replace or renumber blocks take block numbers by value: while they fix up the "
+                            "references of every block, a number received by reference may *be* one of those references (callers pass "
+                            "`ref.index`), and changes under the function's feet as soon as its holder is fixed up")
+    n11 = 0
+    for fn in sorted(F.fns.values(), key=lambda f: f["id"]):
+        if fn.get("cls") != HDR or fn.get("tmpl") == "pattern" or fn.get("short") not in (
+                "DeleteBlock", "ReplaceBlock", "BlockDeleted", "DeleteBlockByType", "IsBlockReferenced", "GetBlockRefCount", "SetBlockOrder"):
+            continue
+        for p_ in fn.get("params", []):
+            t = (p_.get("ct") or p_.get("t") or "")
+            base = t.replace("const", "").replace("&", "").strip()
+            if base not in ("unsigned int", "uint32_t", "int", "unsigned short", "uint16_t", "size_t", "unsigned long"):
+                continue
+            n11 += 1
+            ok = "&" not in t
+            chk.instance(R11, ok=ok, sample={"fn": fn["name"], "param": p_["name"], "type": t})
+            if not ok:
+                chk.violation("R6.11", "C06/R6.11:%s:%s" % (fn["name"].split("(")[0], p_["name"]), where(fn),
+                              "%s takes the block number `%s` as `%s`: called with a reference's own index (DeleteBlock(const NiRef&) "
+                              "forwards `blockRef.index`) the number changes when that reference is fixed up, and the references of "
+                              "all later blocks are shifted against the wrong number" % (fn["name"], p_["name"], t))
+    chk.floor(R11, 5)
+
     # ---------------------------------------------------------------- R6.8
     chk.share(F, "c05", ["R5.1", "R5.2", "R5.5"], "R6.8",
               "BlockDeleted and SetBlockOrder fix up exactly the references the enumerators report")
